@@ -173,8 +173,7 @@ def judge(case, ibc, answers):
             continue
         base = r['forms']['base']
         model, st, Cm = c01.decode(answers[0])
-        exp = [float(x).hex() for row in c01.expected_T(Cm) for x in row]
-        if 'err' in base['emm'] or base['emm']['st'] != st or base['emm']['T'] != exp:
+        if 'err' in base['emm'] or base['emm']['st'] != st or not C.hexes_close(base['emm']['T'], c01.expected_T(Cm)):
             P('impl-vs-spec', 'base representation: T differs from the exact model')
             continue
         for tag, res in r['forms'].items():
